@@ -1,14 +1,36 @@
 // Package muxrun: black-box runs of a real gocql.Session over one connection of the in-memory
 // cluster, for C01 (routing / no id reuse while a response is outstanding) and C06 (exactly one
-// outcome, no hang, no leaked ids). The scripted server logs `req`/`resp`, the callers log `got`;
-// the Lean monitor (Model/Mux.lean, Mon) replays the log.
+// outcome, no hang, no leaked ids). The scripted server logs `req`/`resp`/`stray`/`event`, the callers
+// log `got`; the Lean monitor (Model/Mux.lean, Mon) replays the log.
+//
+// Dimensions of a scenario (all drawn from the one seeded PRNG):
+//   - callers x queries, protocol 2/3/4, direct / coalescing writer, cancellations, resets, early close (as before)
+//   - per-request fate: answered at once / after a delay / after the driver timeout / after ~5.5 timeouts / never
+//   - per-request ANSWER KIND: RESULT rows carrying the token, RESULT void, ERROR of several codes carrying the
+//     token in the message (and in code-specific fields), each optionally with TRACING / WARNING /
+//     CUSTOM_PAYLOAD header flags (trace id, warning text and payload carry the token too)
+//   - WRITE SHAPE of the server's byte stream: several response frames coalesced into ONE write (Group), one
+//     write cut into 2..4 writes at arbitrary byte offsets (inside a header, inside a body) with pauses
+//     shorter or longer than the request timeout / read deadline
+//   - EVENT frames (stream -1) and response frames for never-used stream ids interleaved between responses
+//   - a frame on the reserved stream 0 (the driver must close the connection and end every call)
+//
+// Decisions are order-based only: whatever the timing, a caller that decodes a response must have decoded
+// the kind, flags-derived content and token the server sent for THAT request; at quiescence every call has
+// returned, the ids available are all but the unanswered ones, and a connection the server never closed or
+// corrupted is still open and still answers probe requests.
 package muxrun
 
 import (
 	"context"
+	"encoding/binary"
+	"errors"
 	"fmt"
+	"io"
+	"net"
 	"os"
 	"runtime"
+	"sort"
 	"strconv"
 	"strings"
 	"sync"
@@ -22,23 +44,38 @@ import (
 )
 
 type Scenario struct {
-	Proto      int
-	Callers    int
-	PerCaller  int
-	Coalesce   bool
+	Proto     int
+	Callers   int
+	PerCaller int
+	Coalesce  bool
 	// per-request fate decided by the server from a seeded PRNG
-	PNever     int // percent never answered
-	PLate      int // percent answered after the driver timeout
-	PDelay     int // percent answered after a short random delay (reordering)
-	PErr       int // percent answered with a server error frame
-	PCancel    int // percent of calls whose context is cancelled shortly after start
-	ResetAfter int // server resets the connection after this many requests (0 = never)
-	CloseEarly bool // Session.Close while callers are still waiting
-	PVeryLate  int  // percent answered only after ~5.5 driver timeouts
-	SecondWave bool // after the first wave wait ~4.6 timeouts, then send another wave (id reuse while very late answers are outstanding)
-	CoalesceMs int  // >0: long coalescing window (ms); cancellations then land between enqueue and flush
-	TimeoutLimit int // >0: set the deprecated gocql.TimeoutLimit for this run
-	Seed       uint64
+	PNever       int  // percent never answered
+	PLate        int  // percent answered after the driver timeout
+	PDelay       int  // percent answered after a short random delay (reordering)
+	PErr         int  // percent answered with a server error frame (legacy: homogeneous runs)
+	PCancel      int  // percent of calls whose context is cancelled shortly after start
+	ResetAfter   int  // server resets the connection after this many requests (0 = never)
+	CloseEarly   bool // Session.Close while callers are still waiting
+	PVeryLate    int  // percent answered only after ~5.5 driver timeouts
+	SecondWave   bool // after the first wave wait ~4.6 timeouts, then send another wave (id reuse while very late answers are outstanding)
+	CoalesceMs   int  // >0: long coalescing window (ms); cancellations then land between enqueue and flush
+	TimeoutLimit int  // >0: set the deprecated gocql.TimeoutLimit for this run
+	// answer kinds and the shape of the server's byte stream
+	Mixed          bool // heterogeneous answers: rows / void / ERROR codes, header flags on protocol 4 (tracing on all)
+	Group          int  // >1: up to Group answers are held back and written in ONE server write
+	PSplit         int  // percent of server writes that are cut into 2..4 writes at random byte offsets
+	PLongGap       int  // percent of cut writes that get ONE pause of 1.2..2.2 request timeouts (others: 0..3 ms)
+	PEvent         int  // percent of server writes that also carry an EVENT frame (stream -1)
+	PStray         int  // percent of server writes that also carry a response for a never-used stream id
+	BadStreamAfter int  // >0: after this many requests the server sends a frame on the reserved stream 0
+	Probes         int  // probe requests at quiescence (calm scenarios only)
+	TimeoutMs      int  // request timeout / read deadline
+	Seed           uint64
+}
+
+// calm: nothing in the scenario entitles the driver to close the connection
+func (sc Scenario) calm() bool {
+	return sc.ResetAfter == 0 && !sc.CloseEarly && sc.TimeoutLimit == 0 && sc.BadStreamAfter == 0
 }
 
 type Result struct {
@@ -46,9 +83,494 @@ type Result struct {
 	Impl  []string // implementation answers, aligned
 	Class string
 	Fatal string
+	Odd   []string // error texts that were classified as "undecodable response"
+	Kinds map[int]int
+	Shape map[string]int
 }
 
 var tokCounter uint64
+
+// ---- answer kinds -------------------------------------------------------------------------------------
+
+const (
+	kRows        = 0
+	kVoid        = 1
+	kErr0        = 2 // kErr0+i = ERROR with code errCodes[i]
+	fWarn        = 16
+	fTrace       = 32
+	fPayload     = 64
+	kUndecodable = 900
+	tokGarbled   = 4294967295
+)
+
+var errCodes = []int32{0x2200, 0x1000, 0x1001, 0x1200, 0x1100, 0x2000, 0x0000, 0x2400, 0x2100}
+
+// buildAnswer renders the response frame of the given kind for (stream, tok); w is the token content a
+// correct client can find in it (tok, or 0 when the kind has no room for a token).
+func buildAnswer(proto, stream, tok, kind int) (frame []byte, w int) {
+	b := &memcluster.W{}
+	var hflags byte
+	base := kind & 15
+	w = tok
+	if kind&fTrace != 0 {
+		hflags |= 0x02
+		var id [16]byte
+		binary.BigEndian.PutUint64(id[:8], uint64(tok))
+		for i := 8; i < 16; i++ {
+			id[i] = 0xA5
+		}
+		b.B = append(b.B, id[:]...)
+	}
+	if kind&fWarn != 0 {
+		hflags |= 0x08
+		b.StringList([]string{fmt.Sprintf("warn tok=%d", tok)})
+	}
+	if kind&fPayload != 0 {
+		hflags |= 0x04
+		b.Short(1)
+		b.String("tok")
+		b.Bytes([]byte(strconv.Itoa(tok)))
+	}
+	op := byte(memcluster.OpResult)
+	switch {
+	case base == kRows:
+		b.B = append(b.B, memcluster.RowsBody([]memcluster.Col{{Name: "tok", Type: memcluster.TVarchar}},
+			[][][]byte{{[]byte(strconv.Itoa(tok))}}, nil, false)...)
+	case base == kVoid:
+		b.B = append(b.B, memcluster.VoidBody()...)
+		if kind == kVoid {
+			w = 0
+		}
+	default:
+		op = memcluster.OpError
+		code := errCodes[base-kErr0]
+		var extra []byte
+		n31 := tok & 0x7fffffff
+		switch code {
+		case 0x1000:
+			extra = memcluster.UnavailableExtra(1, n31, 1)
+		case 0x1200:
+			extra = memcluster.ReadTimeoutExtra(1, n31, 2, 1)
+		case 0x1100:
+			extra = memcluster.WriteTimeoutExtra(1, n31, 2, "SIMPLE")
+		case 0x2400:
+			e := &memcluster.W{}
+			e.String("ks")
+			e.String(fmt.Sprintf("t%d", tok))
+			extra = e.B
+		}
+		b.B = append(b.B, memcluster.ErrorBody(code, fmt.Sprintf("tok=%d", tok), extra)...)
+	}
+	f := &memcluster.Frame{Version: byte(proto) | 0x80, Flags: hflags, Stream: stream, Op: op, Body: b.B}
+	return f.Encode(proto), w
+}
+
+type tracer struct{ id []byte }
+
+func (t *tracer) Trace(id []byte) { t.id = append([]byte(nil), id...) }
+
+func tokIn(s, prefix string) int {
+	i := strings.Index(s, prefix)
+	if i < 0 {
+		return tokGarbled
+	}
+	j := i + len(prefix)
+	k := j
+	for k < len(s) && s[k] >= '0' && s[k] <= '9' {
+		k++
+	}
+	v, err := strconv.Atoi(s[j:k])
+	if err != nil {
+		return tokGarbled
+	}
+	return v
+}
+
+// noResponse: the error is one of the outcomes "no response frame was handed to this call"
+func noResponse(err error) bool {
+	for _, e := range []error{gocql.ErrTimeoutNoResponse, context.Canceled, context.DeadlineExceeded,
+		gocql.ErrConnectionClosed, gocql.ErrNoConnections, gocql.ErrNoStreams, gocql.ErrSessionClosed,
+		gocql.ErrTooManyTimeouts, gocql.ErrUnavailable, io.EOF, io.ErrUnexpectedEOF, io.ErrClosedPipe, net.ErrClosed,
+		memcluster.ErrInjected} {
+		if errors.Is(err, e) {
+			return true
+		}
+	}
+	var ne net.Error
+	if errors.As(err, &ne) {
+		return true
+	}
+	s := err.Error()
+	for _, sub := range []string{"closed pipe", "closed network connection", "received unexpected frame on stream",
+		"no hosts available", "unable to read frame body", "EOF"} {
+		if strings.Contains(s, sub) {
+			return true
+		}
+	}
+	return false
+}
+
+// observe decodes what ONE query returned: whether a response frame was handed to the call, and if so
+// its kind (opcode / result kind / error code + the header-flag-derived parts) and the token found in it.
+func observe(iter *gocql.Iter, tr *tracer) (resp bool, k, u int, odd string) {
+	warns := iter.Warnings()
+	pl := iter.GetCustomPayload()
+	ncol := len(iter.Columns())
+	nrows := iter.NumRows()
+	var cell string
+	scanned := false
+	if ncol == 1 && nrows >= 1 {
+		scanned = iter.Scan(&cell)
+	}
+	err := iter.Close()
+	var toks []int
+	switch {
+	case err == nil && ncol == 0 && nrows == 0:
+		k = kVoid
+	case err == nil && ncol == 1 && nrows == 1 && scanned:
+		k = kRows
+		v, e := strconv.Atoi(cell)
+		if e != nil {
+			v = tokGarbled
+		}
+		toks = append(toks, v)
+	case err == nil:
+		return true, kUndecodable, tokGarbled, fmt.Sprintf("result with %d columns %d rows", ncol, nrows)
+	default:
+		re, ok := err.(gocql.RequestError)
+		if !ok {
+			if noResponse(err) {
+				return false, 0, 0, ""
+			}
+			return true, kUndecodable, tokGarbled, err.Error()
+		}
+		k = kUndecodable - 1
+		for i, c := range errCodes {
+			if int(c) == re.Code() {
+				k = kErr0 + i
+			}
+		}
+		toks = append(toks, tokIn(re.Message(), "tok="))
+		switch x := err.(type) {
+		case *gocql.RequestErrUnavailable:
+			toks = append(toks, x.Required|(toks[0]&^0x7fffffff))
+		case *gocql.RequestErrReadTimeout:
+			toks = append(toks, x.Received|(toks[0]&^0x7fffffff))
+		case *gocql.RequestErrWriteTimeout:
+			toks = append(toks, x.Received|(toks[0]&^0x7fffffff))
+			if x.WriteType != "SIMPLE" {
+				toks = append(toks, tokGarbled)
+			}
+		case *gocql.RequestErrAlreadyExists:
+			toks = append(toks, tokIn(x.Table, "t"))
+		}
+	}
+	if len(warns) > 0 {
+		k |= fWarn
+		if len(warns) == 1 {
+			toks = append(toks, tokIn(warns[0], "tok="))
+		} else {
+			toks = append(toks, tokGarbled)
+		}
+	}
+	if pl != nil {
+		k |= fPayload
+		v, e := strconv.Atoi(string(pl["tok"]))
+		if e != nil || len(pl) != 1 {
+			v = tokGarbled
+		}
+		toks = append(toks, v)
+	}
+	if len(tr.id) > 0 {
+		k |= fTrace
+		v := tokGarbled
+		if len(tr.id) == 16 {
+			v = int(binary.BigEndian.Uint64(tr.id[:8]))
+			for _, x := range tr.id[8:] {
+				if x != 0xA5 {
+					v = tokGarbled
+				}
+			}
+		}
+		toks = append(toks, v)
+	}
+	if len(toks) > 0 {
+		u = toks[0]
+		for _, v := range toks[1:] {
+			if v != u {
+				u = tokGarbled
+			}
+		}
+	}
+	return true, k, u, ""
+}
+
+// ---- the server's output stream -----------------------------------------------------------------------
+
+type item struct {
+	b    []byte
+	logs []string
+	done func() // called when the bytes have been written (or dropped because the connection is gone)
+}
+
+type seg struct {
+	b     []byte
+	pause time.Duration // before writing b
+}
+
+type job struct {
+	segs []seg
+	logs []string
+	done []func()
+}
+
+// outq serialises everything the server writes on one connection: handshake answers, heartbeat answers,
+// scripted answers; it owns the write boundaries.
+type outq struct {
+	sc      *memcluster.ServerConn
+	srv     *server
+	mu      sync.Mutex
+	jobs    []job
+	wake    chan struct{}
+	pend    []item
+	timerOn bool
+	dead    bool
+	closed  bool
+}
+
+type server struct {
+	sc        Scenario
+	log       *memcluster.EventLog
+	mu        sync.Mutex // guards rng and the counters below
+	rng       *vh.Rng
+	timeout   time.Duration
+	longLeft  int
+	seen      map[int]bool // stream ids seen in requests
+	overstall int32
+	probing   int32
+	lateWG    sync.WaitGroup
+	outs      sync.Map // conn id -> *outq
+	kinds     map[int]int
+	shape     map[string]int
+}
+
+func (s *server) count(m map[string]int, k string) { m[k]++ }
+
+func (o *outq) enqueue(j job) {
+	o.mu.Lock()
+	if o.dead {
+		o.mu.Unlock()
+		for _, d := range j.done {
+			d()
+		}
+		return
+	}
+	o.jobs = append(o.jobs, j)
+	select {
+	case o.wake <- struct{}{}:
+	default:
+	}
+	o.mu.Unlock()
+}
+
+// shutdown ends the writer goroutine of this connection (end of the run)
+func (o *outq) shutdown() {
+	o.mu.Lock()
+	o.dead = true
+	if !o.closed {
+		o.closed = true
+		close(o.wake)
+	}
+	o.mu.Unlock()
+}
+
+func (o *outq) run() {
+	for range o.wake {
+		for {
+			o.mu.Lock()
+			if len(o.jobs) == 0 {
+				o.mu.Unlock()
+				break
+			}
+			j := o.jobs[0]
+			o.jobs = o.jobs[1:]
+			dead := o.dead
+			o.mu.Unlock()
+			if !dead {
+				for _, l := range j.logs {
+					o.srv.log.Add("%s", l)
+				}
+				t0 := time.Now()
+				for _, sg := range j.segs {
+					if sg.pause > 0 {
+						time.Sleep(sg.pause)
+					}
+					if err := o.sc.WriteNow(sg.b); err != nil {
+						o.mu.Lock()
+						o.dead = true
+						o.mu.Unlock()
+						break
+					}
+				}
+				// the driver gives up on a frame body after 5 read deadlines; whatever the planned pauses were,
+				// a write sequence that took that long in real time makes the run unusable (conservative:
+				// the driver's stall is never longer than the time measured here)
+				if time.Since(t0) >= o.srv.timeout*9/2 {
+					atomic.StoreInt32(&o.srv.overstall, 1)
+				}
+			}
+			for _, d := range j.done {
+				d()
+			}
+		}
+	}
+}
+
+// submit hands one scripted frame to the output stream, grouping it with others if the scenario says so
+func (o *outq) submit(it item, group bool) {
+	g := o.srv.sc.Group
+	if !group || g <= 1 {
+		o.makeJob([]item{it})
+		return
+	}
+	o.mu.Lock()
+	o.pend = append(o.pend, it)
+	if len(o.pend) >= g {
+		p := o.pend
+		o.pend = nil
+		o.mu.Unlock()
+		o.makeJob(p)
+		return
+	}
+	if !o.timerOn {
+		o.timerOn = true
+		time.AfterFunc(3*time.Millisecond, func() {
+			o.mu.Lock()
+			p := o.pend
+			o.pend = nil
+			o.timerOn = false
+			o.mu.Unlock()
+			if len(p) > 0 {
+				o.makeJob(p)
+			}
+		})
+	}
+	o.mu.Unlock()
+}
+
+func eventFrame(proto int, r *vh.Rng) []byte {
+	b := &memcluster.W{}
+	switch r.Intn(3) {
+	case 0: // a schema change of a table (debounced by the session, harmless)
+		b.String("SCHEMA_CHANGE")
+		b.String("UPDATED")
+		if proto > 2 {
+			b.String("TABLE")
+		}
+		b.String("ks")
+		b.String("tbl")
+	case 1: // an event type the driver does not know
+		b.String("VERIF_EVENT")
+		b.B = append(b.B, r.Bytes(r.Intn(40))...)
+	default: // a body that is not an event at all
+		b.B = append(b.B, r.Bytes(1+r.Intn(60))...)
+	}
+	f := &memcluster.Frame{Version: byte(proto) | 0x80, Stream: -1, Op: memcluster.OpEvent, Body: b.B}
+	return f.Encode(proto)
+}
+
+// makeJob concatenates the frames (adding event / stray frames), cuts the byte string into writes
+func (o *outq) makeJob(items []item) {
+	s := o.srv
+	s.mu.Lock()
+	r := s.rng
+	if len(items) > 1 && r.Intn(2) == 0 { // answer order within one write: as decided, or shuffled
+		for i := len(items) - 1; i > 0; i-- {
+			k := r.Intn(i + 1)
+			items[i], items[k] = items[k], items[i]
+		}
+	}
+	var extra []item
+	if r.Intn(100) < s.sc.PEvent {
+		extra = append(extra, item{b: eventFrame(s.sc.Proto, r), logs: []string{fmt.Sprintf("event %d", o.sc.ID)}})
+		s.count(s.shape, "event-frame")
+	}
+	if r.Intn(100) < s.sc.PStray {
+		id := 63 + 64*r.Intn(512)
+		if s.sc.Proto <= 2 {
+			id = 63 + 64*r.Intn(2)
+		}
+		if !s.seen[id] {
+			kind := kVoid
+			if s.sc.Mixed {
+				kind = r.Intn(kErr0 + len(errCodes))
+			}
+			fr, _ := buildAnswer(s.sc.Proto, id, r.Intn(1000), kind)
+			extra = append(extra, item{b: fr, logs: []string{fmt.Sprintf("stray %d %d", o.sc.ID, id)}})
+			s.count(s.shape, "stray-frame")
+		}
+	}
+	for _, e := range extra {
+		k := r.Intn(len(items) + 1)
+		items = append(items, item{})
+		copy(items[k+1:], items[k:])
+		items[k] = e
+	}
+	var j job
+	var all []byte
+	for _, it := range items {
+		all = append(all, it.b...)
+		j.logs = append(j.logs, it.logs...)
+		if it.done != nil {
+			j.done = append(j.done, it.done)
+		}
+	}
+	if len(items) > 1 {
+		s.count(s.shape, "write-with-several-frames")
+	}
+	if len(all) > 1 && r.Intn(100) < s.sc.PSplit {
+		ncut := 1 + r.Intn(3)
+		cuts := map[int]bool{}
+		hl := memcluster.HeaderLen(s.sc.Proto)
+		for i := 0; i < ncut; i++ {
+			c := 1 + r.Intn(len(all)-1)
+			if r.Intn(3) == 0 && len(all) > hl { // inside the first header
+				c = 1 + r.Intn(hl-1)
+			}
+			cuts[c] = true
+		}
+		var cs []int
+		for c := range cuts {
+			cs = append(cs, c)
+		}
+		sort.Ints(cs)
+		long := -1
+		if r.Intn(100) < s.sc.PLongGap && s.longLeft > 0 {
+			s.longLeft--
+			long = r.Intn(len(cs))
+			s.count(s.shape, "pause-longer-than-timeout")
+		}
+		prev := 0
+		for i, c := range append(cs, len(all)) {
+			sg := seg{b: all[prev:c]}
+			if i > 0 {
+				sg.pause = time.Duration(r.Intn(3000)) * time.Microsecond
+				if i-1 == long {
+					sg.pause = s.timeout*6/5 + time.Duration(r.Intn(int(s.timeout/time.Millisecond)))*time.Millisecond
+				}
+			}
+			j.segs = append(j.segs, sg)
+			prev = c
+		}
+		s.count(s.shape, "write-cut")
+	} else {
+		j.segs = []seg{{b: all}}
+	}
+	s.mu.Unlock()
+	o.enqueue(j)
+}
+
+// ---- one run ------------------------------------------------------------------------------------------
 
 func Run(sc Scenario) Result {
 	res := Result{}
@@ -61,56 +583,102 @@ func Run(sc Scenario) Result {
 	cl := memcluster.NewCluster(sc.Proto, "10.0.0.1")
 	node := cl.Nodes["10.0.0.1"]
 	log := cl.Log
-	var srvMu sync.Mutex
-	srvRng := vh.NewRng(sc.Seed ^ 0xabcdef)
+	if sc.TimeoutMs == 0 {
+		sc.TimeoutMs = 60
+	}
+	timeout := time.Duration(sc.TimeoutMs) * time.Millisecond
+	srv := &server{sc: sc, log: log, rng: vh.NewRng(sc.Seed ^ 0xabcdef), timeout: timeout, longLeft: 3,
+		seen: map[int]bool{}, kinds: map[int]int{}, shape: map[string]int{}}
 	var nreq int64
-	timeout := 60 * time.Millisecond
-	var lateWG sync.WaitGroup
+	t0 := time.Now()
+	defer srv.outs.Range(func(_, o interface{}) bool { o.(*outq).shutdown(); return true })
+	node.OnConn = func(c *memcluster.ServerConn) {
+		o := &outq{sc: c, srv: srv, wake: make(chan struct{}, 1)}
+		srv.outs.Store(c.ID, o)
+		c.Intercept = func(b []byte) bool {
+			o.enqueue(job{segs: []seg{{b: append([]byte(nil), b...)}}})
+			return true
+		}
+		go o.run()
+	}
 	node.Handle = func(req *memcluster.Request) {
 		tok := 0
 		if req.Op == memcluster.OpQuery {
 			fmt.Sscanf(req.Stmt, "PING t%dt", &tok)
 		}
 		connID := req.Conn.ID
+		ov, _ := srv.outs.Load(connID)
+		o := ov.(*outq)
+		srv.mu.Lock()
+		srv.seen[req.Stream] = true
+		srv.mu.Unlock()
 		log.Add("req %d %d %d", connID, req.Stream, tok)
 		n := atomic.AddInt64(&nreq, 1)
 		if sc.ResetAfter > 0 && int(n) == sc.ResetAfter {
 			req.Conn.Close()
 			return
 		}
-		srvMu.Lock()
-		p := srvRng.Intn(100)
-		d := time.Duration(srvRng.Intn(3000)) * time.Microsecond
-		srvMu.Unlock()
-		body := memcluster.RowsBody([]memcluster.Col{{Name: "tok", Type: memcluster.TVarchar}},
-			[][][]byte{{[]byte(strconv.Itoa(tok))}}, nil, false)
-		op := byte(memcluster.OpResult)
-		send := func() {
-			log.Add("resp %d %d %d", connID, req.Stream, tok)
-			req.Conn.Reply(req.Stream, op, body)
+		if sc.BadStreamAfter > 0 && int(n) == sc.BadStreamAfter {
+			fr, _ := buildAnswer(sc.Proto, 0, tok, kVoid)
+			o.enqueue(job{segs: []seg{{b: fr}}})
+			return
+		}
+		srv.mu.Lock()
+		p := srv.rng.Intn(100)
+		d := time.Duration(srv.rng.Intn(3000)) * time.Microsecond
+		kind := kRows
+		if sc.Mixed {
+			kind = srv.rng.Intn(kErr0 + len(errCodes))
+			if srv.rng.Intn(3) == 0 {
+				kind |= fTrace
+			}
+			if sc.Proto >= 4 {
+				if srv.rng.Intn(3) == 0 {
+					kind |= fWarn
+				}
+				if srv.rng.Intn(3) == 0 {
+					kind |= fPayload
+				}
+			}
+		} else if p >= sc.PNever+sc.PVeryLate+sc.PLate+sc.PDelay && p < sc.PNever+sc.PVeryLate+sc.PLate+sc.PDelay+sc.PErr {
+			kind = kErr0
+		}
+		srv.kinds[kind]++
+		srv.mu.Unlock()
+		frame, w := buildAnswer(sc.Proto, req.Stream, tok, kind)
+		it := item{b: frame, logs: []string{fmt.Sprintf("resp %d %d %d %d %d", connID, req.Stream, tok, kind, w)}}
+		if atomic.LoadInt32(&srv.probing) == 1 {
+			srv.lateWG.Add(1)
+			it.done = srv.lateWG.Done
+			o.enqueue(job{segs: []seg{{b: it.b}}, logs: it.logs, done: []func(){it.done}})
+			return
+		}
+		send := func() { o.submit(it, true) }
+		after := func(d time.Duration) {
+			srv.lateWG.Add(1)
+			it.done = srv.lateWG.Done
+			if d == 0 {
+				send()
+			} else {
+				go func() { time.Sleep(d); send() }()
+			}
 		}
 		switch {
 		case p < sc.PNever:
 			return
 		case p < sc.PNever+sc.PVeryLate:
-			lateWG.Add(1)
-			go func() { defer lateWG.Done(); time.Sleep(11*timeout/2 + d); send() }()
+			after(11*timeout/2 + d)
 		case p < sc.PNever+sc.PVeryLate+sc.PLate:
-			lateWG.Add(1)
-			go func() { defer lateWG.Done(); time.Sleep(timeout + 25*time.Millisecond + d); send() }()
+			after(timeout + 25*time.Millisecond + d)
 		case p < sc.PNever+sc.PVeryLate+sc.PLate+sc.PDelay:
-			lateWG.Add(1)
-			go func() { defer lateWG.Done(); time.Sleep(d); send() }()
-		case p < sc.PNever+sc.PVeryLate+sc.PLate+sc.PDelay+sc.PErr:
-			op = memcluster.OpError
-			body = memcluster.ErrorBody(memcluster.ErrInvalid, fmt.Sprintf("tok=%d", tok), nil)
-			send()
+			after(d + 1)
 		default:
-			send()
+			after(0)
 		}
 	}
 	cfg := sess.Config(cl, sc.Proto, "10.0.0.1")
 	cfg.Timeout = timeout
+	cfg.WriteTimeout = 10 * time.Second // a write deadline that expires under CPU load would close the connection legitimately
 	if sc.Coalesce {
 		cfg.WriteCoalesceWaitTime = 100 * time.Microsecond
 	}
@@ -121,19 +689,34 @@ func Run(sc Scenario) Result {
 		gocql.TimeoutLimit = int64(sc.TimeoutLimit)
 		defer func() { gocql.TimeoutLimit = 0 }()
 	}
-	s, err := cfg.CreateSession()
-	if err != nil {
-		res.Fatal = "session: " + err.Error()
-		return res
-	}
-	if !sess.WaitConns(s, 1, 2*time.Second) {
+	// setup is retried: one stall of the machine during the handshake must not read as a defect
+	var s *gocql.Session
+	var err error
+	for try := 0; try < 3; try++ {
+		s, err = cfg.CreateSession()
+		if err != nil {
+			res.Fatal = "session: " + err.Error()
+			continue
+		}
+		res.Fatal = ""
+		ok := false
+		for w := 0; w < 3 && !ok; w++ {
+			ok = sess.WaitConns(s, 1, 2*time.Second)
+		}
+		if ok {
+			break
+		}
 		s.Close()
 		res.Fatal = "no connection"
+	}
+	if res.Fatal != "" {
 		return res
 	}
 	conn0 := gocql.VerifSessionConns(s)[0]
+	dials0 := node.NumDials() // 1 unless the setup had to be retried
 	var started, returned int64
 	var wg sync.WaitGroup
+	var oddMu sync.Mutex
 	rng := vh.NewRng(sc.Seed)
 	type plan struct {
 		cancelAfter time.Duration
@@ -150,52 +733,56 @@ func Run(sc Scenario) Result {
 			}
 		}
 	}
-	launch := func() {
-	for i := 0; i < sc.Callers; i++ {
-		wg.Add(1)
-		go func(i int) {
-			defer wg.Done()
-			for j := 0; j < sc.PerCaller; j++ {
-				tok := int(atomic.AddUint64(&tokCounter, 1))
-				ctx, cancel := context.WithCancel(context.Background())
-				if d := plans[i][j].cancelAfter; d > 0 {
-					time.AfterFunc(d, cancel)
-				}
-				atomic.AddInt64(&started, 1)
-				var got string
-				err := s.Query(fmt.Sprintf("PING t%dt", tok)).WithContext(ctx).Scan(&got)
-				atomic.AddInt64(&returned, 1)
-				cancel()
-				if err == nil {
-					u, _ := strconv.Atoi(got)
-					log.Add("got 0 %d %d", tok, u)
-				} else if strings.Contains(err.Error(), "tok=") {
-					// a server error frame carries the token of the request it answers
-					var u int
-					fmt.Sscanf(err.Error()[strings.Index(err.Error(), "tok="):], "tok=%d", &u)
-					log.Add("got 0 %d %d", tok, u)
-				}
+	// one query: returns whether the caller decoded the answer the server sent for it (the harness's own
+	// bookkeeping for probes; the verdict is the monitor's)
+	one := func(cancelAfter time.Duration) (timedOut bool) {
+		tok := int(atomic.AddUint64(&tokCounter, 1))
+		ctx, cancel := context.WithCancel(context.Background())
+		if cancelAfter > 0 {
+			time.AfterFunc(cancelAfter, cancel)
+		}
+		atomic.AddInt64(&started, 1)
+		tr := &tracer{}
+		iter := s.Query(fmt.Sprintf("PING t%dt", tok)).WithContext(ctx).Trace(tr).Iter()
+		resp, k, u, odd := observe(iter, tr)
+		atomic.AddInt64(&returned, 1)
+		cancel()
+		if resp {
+			log.Add("got 0 %d %d %d", tok, k, u)
+			if odd != "" {
+				oddMu.Lock()
+				res.Odd = append(res.Odd, odd)
+				oddMu.Unlock()
 			}
-		}(i)
+		}
+		return !resp
 	}
+	progress := func() int64 { return atomic.LoadInt64(&returned)<<20 + int64(len(log.Snapshot())) }
+	noProgress := func() int64 { return 0 }
+	launch := func() {
+		for i := 0; i < sc.Callers; i++ {
+			wg.Add(1)
+			go func(i int) {
+				defer wg.Done()
+				for j := 0; j < sc.PerCaller; j++ {
+					one(plans[i][j].cancelAfter)
+				}
+			}(i)
+		}
 	}
 	launch()
 	if sc.CloseEarly {
 		time.Sleep(time.Duration(1+rng.Intn(20)) * time.Millisecond)
 		cdone := make(chan struct{})
 		go func() { s.Close(); close(cdone) }()
-		select {
-		case <-cdone:
-		case <-time.After(15 * time.Second):
+		if !waitDone(cdone, noProgress) {
 			res.Fatal = "Session.Close hangs\n" + stacks()
 			return res
 		}
 	}
 	done := make(chan struct{})
 	go func() { wg.Wait(); close(done) }()
-	select {
-	case <-done:
-	case <-time.After(20 * time.Second):
+	if !waitDone(done, progress) {
 		res.Fatal = "callers hang\n" + stacks()
 		return res
 	}
@@ -205,26 +792,71 @@ func Run(sc Scenario) Result {
 		launch()
 		done2 := make(chan struct{})
 		go func() { wg.Wait(); close(done2) }()
-		select {
-		case <-done2:
-		case <-time.After(20 * time.Second):
+		if !waitDone(done2, progress) {
 			res.Fatal = "callers hang (second wave)\n" + stacks()
 			return res
 		}
 	}
-	lateWG.Wait()
-	for _, l := range log.Snapshot() {
+	srv.lateWG.Wait()
+	// probes: a connection that nobody was entitled to close still serves requests, each getting its own answer
+	probesOK := -1
+	alive := ""
+	if sc.calm() && time.Since(t0) < 5*time.Second {
+		alive = "open"
+		if conn0.Closed() || node.NumDials() != dials0 {
+			alive = fmt.Sprintf("closed(c0closed=%v,dials=%d)", conn0.Closed(), node.NumDials())
+		} else if sc.Probes > 0 {
+			atomic.StoreInt32(&srv.probing, 1)
+			probesOK = 0
+			for i := 0; i < sc.Probes; i++ {
+				for try := 0; try < 20; try++ {
+					if !one(0) {
+						probesOK++
+						break
+					}
+				}
+			}
+			srv.lateWG.Wait()
+		}
+	}
+	snap := log.Snapshot()
+	unanswered := 0
+	for _, l := range snap {
+		if strings.HasPrefix(l, "req ") {
+			unanswered++
+		} else if strings.HasPrefix(l, "resp ") {
+			unanswered--
+		}
+	}
+	res.Kinds = srv.kinds
+	res.Shape = srv.shape
+	res.Class = fmt.Sprintf("proto%d", sc.Proto)
+	if atomic.LoadInt32(&srv.overstall) == 1 {
+		// the server's own writes took longer than 4.5 request timeouts for one write sequence (machine under
+		// load): the driver may legitimately have given up on a frame body; nothing of this run is judged
+		res.Class += "/discarded-overstall"
+		s.Close()
+		return res
+	}
+	for _, l := range snap {
 		add(l, "ok")
 	}
 	add(fmt.Sprintf("calls %d", atomic.LoadInt64(&started)), fmt.Sprint(atomic.LoadInt64(&returned)))
-	res.Class = fmt.Sprintf("proto%d", sc.Proto)
+	if alive != "" {
+		add(fmt.Sprintf("alive %d", dials0), alive)
+		res.Class += "/calm"
+	}
+	if probesOK >= 0 {
+		add(fmt.Sprintf("probes %d", sc.Probes), fmt.Sprint(probesOK))
+	}
 	// id accounting at quiescence, only meaningful while the first connection is still open and was the only one
-	if !sc.CloseEarly && !conn0.Closed() && node.NumDials() == 1 {
+	if !sc.CloseEarly && !conn0.Closed() && node.NumDials() == dials0 {
+		want := cap - 1 - unanswered
 		last := -1
 		stable := 0
-		for k := 0; k < 400 && stable < 5; k++ {
+		for it := 0; stable < 5 && it < 2000; it++ {
 			a := conn0.AvailableStreams()
-			if a == last {
+			if a == last && a == want {
 				stable++
 			} else {
 				stable = 0
@@ -232,7 +864,7 @@ func Run(sc Scenario) Result {
 			}
 			time.Sleep(time.Millisecond)
 		}
-		add("avail 1", fmt.Sprint(last))
+		add(fmt.Sprintf("avail %d", dials0), fmt.Sprint(last))
 		res.Class += "/avail"
 	} else {
 		res.Class += fmt.Sprintf("/closed(early=%v,c0closed=%v,dials=%d)", sc.CloseEarly, conn0.Closed(), node.NumDials())
@@ -240,14 +872,36 @@ func Run(sc Scenario) Result {
 	if !sc.CloseEarly {
 		cdone := make(chan struct{})
 		go func() { s.Close(); close(cdone) }()
-		select {
-		case <-cdone:
-		case <-time.After(15 * time.Second):
+		if !waitDone(cdone, noProgress) {
 			res.Fatal = "Session.Close hangs\n" + stacks()
 			return res
 		}
 	}
 	return res
+}
+
+// waitDone waits for done under a watchdog. A hang is only declared when a first window of 20 s AND a
+// second window of 25 s have passed and nothing moved during the second one (progress counter unchanged):
+// a single stall of the whole machine / a jump of the clock (seen on this VM: two independent harness
+// processes "hung" at the same instant with every goroutine in an ordinary state) cannot produce it.
+func waitDone(done <-chan struct{}, progress func() int64) bool {
+	select {
+	case <-done:
+		return true
+	case <-time.After(20 * time.Second):
+	}
+	for i := 0; i < 6; i++ {
+		p0 := progress()
+		select {
+		case <-done:
+			return true
+		case <-time.After(25 * time.Second):
+		}
+		if progress() == p0 {
+			return false
+		}
+	}
+	return false
 }
 
 func stacks() string {
@@ -273,7 +927,8 @@ func Gen(r *vh.Rng, wide bool) Scenario {
 	case 4:
 		sc.PLate, sc.PCancel, sc.PDelay = 10, 30, 40
 	}
-	switch r.Intn(8) {
+	special := r.Intn(8)
+	switch special {
 	case 0: // very late answers + a second wave that re-uses ids (small id space)
 		sc.Proto = 2
 		sc.PNever, sc.PVeryLate, sc.PLate, sc.PDelay, sc.PErr, sc.PCancel = 10, 25, 0, 30, 0, 0
@@ -289,13 +944,42 @@ func Gen(r *vh.Rng, wide bool) Scenario {
 		sc.Callers = 30 + r.Intn(60)
 		sc.PerCaller = 3
 	}
+	// answer kinds and write shapes
+	sc.Mixed = r.Intn(10) < 7
+	if sc.Mixed && r.Intn(3) == 0 {
+		sc.Proto = 4 // all header flags
+	}
+	if r.Intn(2) == 0 {
+		sc.Group = 2 + r.Intn(7)
+	}
+	if r.Intn(2) == 0 {
+		sc.PSplit = []int{20, 50, 100}[r.Intn(3)]
+	}
+	if r.Intn(4) == 0 {
+		sc.PEvent = 10 + r.Intn(50)
+	}
+	if r.Intn(4) == 0 {
+		sc.PStray = 10 + r.Intn(50)
+	}
+	sc.Probes = 2
+	if special > 1 && r.Intn(3) == 0 {
+		// pauses longer than the request timeout in the middle of a server write: a few callers, several
+		// queries each, so that requests are sent while a frame is stalled and after its late tail arrived
+		sc.TimeoutMs = 100
+		sc.PSplit = 100
+		sc.PLongGap = 60
+		sc.Callers = 2 + r.Intn(6)
+		sc.PerCaller = 2 + r.Intn(3)
+		sc.PLate, sc.PNever, sc.PVeryLate = 0, 0, 0
+		sc.Probes = 3
+	}
 	if wide {
 		if r.Intn(8) == 0 {
 			sc.TimeoutLimit = 1 + r.Intn(2)
 			sc.PNever = 30
 			sc.SecondWave = false
 		}
-		switch r.Intn(6) {
+		switch r.Intn(7) {
 		case 0:
 			sc.ResetAfter = 1 + r.Intn(20)
 		case 1:
@@ -306,7 +990,16 @@ func Gen(r *vh.Rng, wide bool) Scenario {
 			sc.Callers = 140 + r.Intn(40)
 			sc.PerCaller = 1
 			sc.PNever, sc.PLate, sc.PDelay, sc.PErr, sc.PCancel = 0, 0, 100, 0, 0
+			sc.PLongGap = 0
+			sc.TimeoutMs = 0
+		case 3: // a frame on the reserved stream 0: the driver must close the connection, every call must end
+			sc.BadStreamAfter = 1 + r.Intn(20)
 		}
+	}
+	// a response for a "never-used" id needs an id the allocator cannot reach in this run: with the 127 ids
+	// of protocol 2 only while few requests are outstanding at any time
+	if sc.Proto <= 2 && sc.Callers*sc.PerCaller > 40 {
+		sc.PStray = 0
 	}
 	return sc
 }
@@ -319,7 +1012,9 @@ func Main(wide bool) {
 		// the model re-judges the trace.
 		for _, l := range vh.ReadLines(path) {
 			w := strings.Fields(l)
-			if len(w) > 0 && (w[0] == "avail" || w[0] == "calls") {
+			if len(w) > 0 && (w[0] == "rx" || w[0] == "rxk" || w[0] == "rxo" || w[0] == "rd" || w[0] == "rdo") {
+				fmt.Println(RunRx(l)) // executed on the real receive loop
+			} else if len(w) > 0 && (w[0] == "avail" || w[0] == "calls" || w[0] == "alive" || w[0] == "probes") {
 				fmt.Println("(recorded)")
 			} else {
 				fmt.Println("ok")
@@ -329,11 +1024,39 @@ func Main(wide bool) {
 	}
 	r := vh.NewRng(vh.EnvSeed())
 	out := vh.NewOut(path)
-	runs := 40
+	runs := 60
 	if tier == "thorough" {
 		runs = 600
 	}
+	// the receive loop over scripted sockets (no wall clock): chunks and read-deadline expiries
+	nrx := 0
+	if !wide {
+		rr := vh.NewRng(vh.EnvSeed() ^ 0x5eed5eed)
+		n := 1500
+		if tier == "thorough" {
+			n = 40000
+		}
+		for i := 0; i < n; i++ {
+			var line, cls string
+			switch {
+			case i%6 == 5:
+				line, cls = GenRx(rr, true)
+			case i%6 == 4:
+				line, cls = GenRd(rr)
+			default:
+				line, cls = GenRx(rr, false)
+			}
+			out.Case(line, RunRx(line), cls, true)
+			nrx++
+		}
+		if rxHung {
+			os.WriteFile(path+"/fatal.txt", []byte("receive loop blocked on a scripted socket\n"+gocql.VerifLastHangDump), 0o644)
+		}
+	}
 	nreq := 0
+	kinds := map[string]int{}
+	shape := map[string]int{}
+	var odd []string
 	for i := 0; i < runs; i++ {
 		sc := Gen(r, wide)
 		res := Run(sc)
@@ -341,8 +1064,18 @@ func Main(wide bool) {
 			// a hang / failure to set up is reported as a failed case with the goroutine dump as answer
 			os.WriteFile(path+"/fatal.txt", []byte(res.Fatal), 0o644)
 			out.Case(fmt.Sprintf("calls %d", -1), "hang-or-fatal:"+strings.SplitN(res.Fatal, "\n", 2)[0], "fatal", true)
+			if strings.Contains(res.Fatal, "hang") {
+				break // one confirmed hang (45 s of watchdog) is the verdict; the goroutines of that run are still around
+			}
 			continue
 		}
+		for k, v := range res.Kinds {
+			kinds[fmt.Sprint(k)] += v
+		}
+		for k, v := range res.Shape {
+			shape[k] += v
+		}
+		odd = append(odd, res.Odd...)
 		for k, op := range res.Ops {
 			cls := res.Class + "/" + strings.Fields(op)[0]
 			out.Case(op, res.Impl[k], cls, strings.HasPrefix(op, "req"))
@@ -351,5 +1084,8 @@ func Main(wide bool) {
 			}
 		}
 	}
-	out.Close(map[string]interface{}{"scenarios": runs, "requests_observed": nreq})
+	if len(odd) > 0 {
+		os.WriteFile(path+"/odd_errors.txt", []byte(strings.Join(odd, "\n")+"\n"), 0o644)
+	}
+	out.Close(map[string]interface{}{"scenarios": runs, "requests_observed": nreq, "scripted_socket_cases": nrx, "answer_kinds": kinds, "write_shapes": shape})
 }
